@@ -95,6 +95,36 @@ type freezeConn struct {
 	dead   chan struct{}
 	once   sync.Once
 	fonce  sync.Once
+	pmu    sync.Mutex
+	resume chan struct{} // non-nil while the link is stalled (pause): data is delayed, nothing is lost, nothing is closed
+}
+
+// pause stalls the link in both directions until unpause: a latency spike, not a failure.
+func (f *freezeConn) pause() {
+	f.pmu.Lock()
+	if f.resume == nil {
+		f.resume = make(chan struct{})
+	}
+	f.pmu.Unlock()
+}
+func (f *freezeConn) unpause() {
+	f.pmu.Lock()
+	if f.resume != nil {
+		close(f.resume)
+		f.resume = nil
+	}
+	f.pmu.Unlock()
+}
+func (f *freezeConn) waitResume() {
+	f.pmu.Lock()
+	ch := f.resume
+	f.pmu.Unlock()
+	if ch != nil {
+		select {
+		case <-ch:
+		case <-f.dead:
+		}
+	}
 }
 
 func newFreezeConn(c net.Conn) *freezeConn {
@@ -124,6 +154,7 @@ func (f *freezeConn) Read(p []byte) (int, error) {
 		<-f.dead
 		return 0, io.ErrClosedPipe
 	}
+	f.waitResume() // stalled link: what was read is handed on only when the stall is over
 	return n, err
 }
 func (f *freezeConn) Write(p []byte) (int, error) {
@@ -131,6 +162,7 @@ func (f *freezeConn) Write(p []byte) (int, error) {
 		<-f.dead
 		return 0, io.ErrClosedPipe
 	}
+	f.waitResume()
 	return f.Conn.Write(p)
 }
 func (f *freezeConn) Close() error {
@@ -160,6 +192,7 @@ type mwConn struct {
 	handed   bool // passed to addNewMux
 	lateAdd  bool // ... after the lifetime had ended
 	dieBeforeAdd bool // the peer answers the first ping and hangs up before addNewMux looks at the session
+	hiccup       bool // the link stalls for 11 s right after the provider's handshake ping was answered: the session's first health-check ping times out, the session survives
 	muxID    string
 	harnShut bool // the harness closed / abandoned its end itself
 	sawEOF   atomic.Bool
@@ -244,6 +277,10 @@ func newMuxWorld(t *testing.T, n int, role string, tcp, bubble, withGRPC bool) *
 				case <-s.CloseChan():
 				case <-time.After(10 * time.Second):
 				}
+			}
+			if m != nil && m.hiccup && m.frz != nil {
+				m.frz.pause()
+				go func() { time.Sleep(11 * time.Second); m.frz.unpause() }()
 			}
 			before := w.mgr.GetMuxConnections()
 			cb(s, c)
@@ -510,6 +547,13 @@ func (w *muxWorld) peer(kind string) {
 		before := len(w.regIDs())
 		w.startPeer(m)
 		w.settle(func() bool { return w.cancelled || len(w.regIDs()) > before })
+	case "ping-hiccup": // answers the ping, then the link stalls for 11 s (no failure, nothing lost), then all is well again
+		before := len(w.regIDs())
+		m.hiccup = true
+		w.startPeer(m)
+		w.settle(func() bool { return w.cancelled || len(w.regIDs()) > before })
+		time.Sleep(17 * time.Second) // 11 s of stall, then time for the client connection's re-dial back-off (about 1 s) to pass
+		w.settle(nil)
 	case "ping-die": // answers the ping, then hangs up before the provider has registered the session
 		m.dieBeforeAdd = true
 		w.startPeer(m)
